@@ -2,7 +2,8 @@
    read_until / write_all transcribed over them (read_exact is kept as a
    transcription of std; decoder.rs no longer calls it), and
    /repo/src/reader/decoder.rs (Decoder::new / read_bom / read_line /
-   curr_line) plus the way /repo/src/decode.rs drives it (every read_line
+   curr_line; the decoder reads through std's Chain of the bytes read_bom took
+   and the reader) plus the way /repo/src/decode.rs drives it (every read_line
    error is returned, the loop runs to EOF).  Definitions only; lemmas are in
    Proofs/ReaderFacts.v. *)
 From RM Require Import Model.Text Model.Encoding.
@@ -137,28 +138,110 @@ Fixpoint read_exact (fuel : nat) (n : nat) (r : reader) (acc : bytes) : io (byte
 
 (* ---------- decoder.rs ---------- *)
 
-Record decoder := mkDecoder { inner : reader; read_buf : bytes; enc : encoding }.
+(* std::io::Chain<Cursor<Vec<u8>>, R> (Decoder::inner since the repair of D4):
+   [pending] is what is left of the cursor over the bytes read_bom took from
+   the reader beyond the BOM, [second] the reader, [done_first] the flag of
+   std's Chain. *)
+Record chain := mkChain { pending : bytes; done_first : bool; second : reader }.
 
-Definition min_bom_len : nat := Z.to_nat read_bom_min_len.
+(* Chain::fill_buf:
+     if !self.done_first {
+         match self.first.fill_buf()? {
+             buf if buf.is_empty() => self.done_first = true,
+             buf => return Ok(buf) } }
+     self.second.fill_buf()
+   (Cursor::fill_buf returns the unread part of its vector and never fails) *)
+Definition chain_fill_buf (c : chain) : fb * chain :=
+  if done_first c then
+    let '(x, r') := fill_buf (second c) in (x, mkChain (pending c) true r')
+  else
+    match pending c with
+    | _ :: _ => (FbBuf (pending c), c)
+    | [] => let '(x, r') := fill_buf (second c) in (x, mkChain [] true r')
+    end.
 
-(* Decoder::read_bom: chunks shorter than 3 bytes are consumed and dropped *)
-Fixpoint read_bom (fuel : nat) (r : reader) : io (encoding * reader) :=
-  match fuel with
-  | O => IoFuel
-  | S f =>
-      match fill_buf r with
-      | (FbInt, r') => read_bom f r'
-      | (FbErr k, _) => IoErr k
-      | (FbBuf a, r') =>
-          let len := length a in
-          if (min_bom_len <=? len)%nat || (len =? 0)%nat then
-            let '(e, c) := from_bom a in IoDone (e, consume c r')
-          else read_bom f (consume len r')
-      end
+(* Chain::consume: if !self.done_first { self.first.consume(amt) } else { self.second.consume(amt) } *)
+Definition chain_consume (k : nat) (c : chain) : chain :=
+  if done_first c then mkChain (pending c) true (consume k (second c))
+  else mkChain (skipn k (pending c)) false (second c).
+
+(* BufRead::read_until of the Cursor (std's default loop over fill_buf /
+   consume of a source that never fails): up to and including the delimiter,
+   or everything; returns (bytes appended, what is left) *)
+Definition cursor_read_until (d : Z) (p : bytes) : bytes * bytes :=
+  match memchr d p with
+  | Some i => (firstn (S i) p, skipn (S i) p)
+  | None => (p, [])
   end.
 
+(* Chain::read_until (std overrides the default):
+     let mut read = 0;
+     if !self.done_first {
+         let n = self.first.read_until(byte, buf)?;
+         read += n;
+         match buf.last() {
+             Some(b) if *b == byte && n != 0 => return Ok(read),
+             _ => self.done_first = true } }
+     read += self.second.read_until(byte, buf)?;
+     Ok(read) *)
+Definition chain_read_until (fuel : nat) (d : Z) (c : chain) (buf : bytes) : io (bytes * chain) :=
+  if done_first c then
+    io_bind (read_until fuel d (second c) buf)
+            (fun '(buf', r') => IoDone (buf', mkChain (pending c) true r'))
+  else
+    let '(got, lft) := cursor_read_until d (pending c) in
+    let buf1 := buf ++ got in
+    if (match last_opt buf1 with Some b => b =? d | None => false end) && negb (length got =? 0)%nat then
+      IoDone (buf1, mkChain lft false (second c))
+    else
+      io_bind (read_until fuel d (second c) buf1)
+              (fun '(buf', r') => IoDone (buf', mkChain lft true r')).
+
+Record decoder := mkDecoder { inner : chain; read_buf : bytes; enc : encoding }.
+
+(* the number of bytes read_bom collects before it looks for a BOM *)
+Definition min_bom_len : nat := Z.to_nat read_bom_min_len.
+
+(* the end of Decoder::read_bom:
+     let (encoding, consumed) = Encoding::from_bom(&head);
+     head.drain(..consumed);
+     Ok((encoding, head)) *)
+Definition bom_finish (head : bytes) (r : reader) : io (encoding * bytes * reader) :=
+  let '(e, c) := from_bom head in IoDone (e, skipn c head, r).
+
+(* Decoder::read_bom: up to three bytes are taken from the reader, over as
+   many chunks as it takes:
+     while head.len() < 3 {
+         let available = match reader.fill_buf() {
+             Ok(n) => n,
+             Err(ref err) if err.kind() == ErrorKind::Interrupted => continue,
+             Err(err) => return Err(err) };
+         if available.is_empty() { break; }
+         let len = available.len().min(3 - head.len());
+         head.extend_from_slice(&available[..len]);
+         reader.consume(len); } *)
+Fixpoint read_bom (fuel : nat) (r : reader) (head : bytes) : io (encoding * bytes * reader) :=
+  if (length head <? min_bom_len)%nat then
+    match fuel with
+    | O => IoFuel
+    | S f =>
+        match fill_buf r with
+        | (FbInt, r') => read_bom f r' head
+        | (FbErr k, _) => IoErr k
+        | (FbBuf a, r') =>
+            match a with
+            | [] => bom_finish head r'
+            | _ :: _ =>
+                let len := Nat.min (length a) (min_bom_len - length head) in
+                read_bom f (consume len r') (head ++ firstn len a)
+            end
+        end
+    end
+  else bom_finish head r.
+
+(* Decoder::new: inner = Cursor::new(head).chain(inner) *)
 Definition decoder_new (fuel : nat) (r : reader) : io decoder :=
-  io_bind (read_bom fuel r) (fun '(e, r') => IoDone (mkDecoder r' [] e)).
+  io_bind (read_bom fuel r []) (fun '(e, head, r') => IoDone (mkDecoder (mkChain head false r') [] e)).
 
 Definition enc_is_le (e : encoding) : bool :=
   match e with Utf16LE => true | _ => false end.
@@ -177,21 +260,21 @@ Definition curr_line (d : decoder) : io str :=
          Err(ref err) if err.kind() == ErrorKind::Interrupted => {}
          Err(err) => return Err(err) } }
    An empty fill_buf is EOF: the line is kept without the extra byte. *)
-Fixpoint read_extra (fuel : nat) (r : reader) (buf : bytes) : io (bytes * reader) :=
+Fixpoint read_extra (fuel : nat) (c : chain) (buf : bytes) : io (bytes * chain) :=
   match fuel with
   | O => IoFuel
   | S f =>
-      match fill_buf r with
-      | (FbBuf (byte :: _), r') => IoDone (buf ++ [byte], consume 1 r')
-      | (FbBuf [], r') => IoDone (buf, r')
-      | (FbInt, r') => read_extra f r' buf
+      match chain_fill_buf c with
+      | (FbBuf (byte :: _), c') => IoDone (buf ++ [byte], chain_consume 1 c')
+      | (FbBuf [], c') => IoDone (buf, c')
+      | (FbInt, c') => read_extra f c' buf
       | (FbErr k, _) => IoErr k
       end
   end.
 
 (* Decoder::read_line; [fuel] bounds the loops of read_until / read_extra *)
 Definition read_line (fuel : nat) (d : decoder) : io (option str * decoder) :=
-  io_bind (read_until fuel LF (inner d) []) (fun '(buf, r) =>
+  io_bind (chain_read_until fuel LF (inner d) []) (fun '(buf, r) =>
     match buf with
     | [] => IoDone (None, mkDecoder r [] (enc d))
     | _ :: _ =>
@@ -241,17 +324,6 @@ Fixpoint strip_interrupted (s : list ev) : list ev :=
   | e :: t => e :: strip_interrupted t
   end.
 
-(* D4 class: the first non-empty chunk the source hands out is shorter than
-   read_bom's minimum although more data follows.  [good_start n s]: with n
-   bytes of data, the first chunk has at least 3 bytes or is all the data. *)
-Fixpoint good_start (n : nat) (s : list ev) : bool :=
-  match s with
-  | [] => true
-  | Interrupted :: t => good_start n t
-  | Chunk c :: _ => (min_bom_len <=? Pos.to_nat c)%nat || (n <=? Pos.to_nat c)%nat
-  | Fail _ :: _ => true
-  end.
-
 (* the hard failure the decoder is bound to run into: bytes are handed out
    chunk by chunk; a failure scheduled before the source has reported EOF *)
 Fixpoint reaches_fail (n : nat) (s : list ev) : option io_kind :=
@@ -297,11 +369,10 @@ Fixpoint lines_pure (n : nat) (e : encoding) (b : bytes) : io (list str) :=
       end
   end.
 
-(* what from_bytes makes of the bytes: a stream shorter than read_bom's minimum
-   chunk is dropped whole (part of D4); otherwise BOM, then lines *)
+(* what the bytes alone determine: the BOM (if any) selects the encoding and is
+   skipped, the rest is cut into lines *)
 Definition decode_stream (b : bytes) : io (list str) :=
-  if (length b <? min_bom_len)%nat then IoDone []
-  else let '(e, c) := from_bom b in lines_pure (S (length b)) e (skipn c b).
+  let '(e, c) := from_bom b in lines_pure (S (length b)) e (skipn c b).
 
 (* ---------- the writer (dual) and std's Write::write_all ---------- *)
 
